@@ -1,7 +1,9 @@
 //@unit timestamp props=C33
 // C33 — pkarr timestamps are strictly increasing across threads.
 use vstd::prelude::*;
+use vstd::std_specs::cmp::OrdSpec;
 verus! {
+//@include shims/std_wide.rs
 // ---- trusted shim: one linearizable atomic location (portable_atomic::AtomicU64).
 // Rely/guarantee: EVERY write to the location must be strictly greater than the value it replaces
 // (precondition of compare_exchange_weak); this is what makes the lemma below apply to all threads.
@@ -20,6 +22,32 @@ impl AtomicU64 {
         requires new > current   // [C33]
         ensures r matches Ok(v) ==> v == current && written_by_cas(new),
                 r matches Err(v) ==> v < u64::MAX
+    { unimplemented!() }
+    // The other read-modify-write operations, with the same guarantee obligation.  A value counts as
+    // `written_by_cas` only if THIS call stored it and it is greater than what it replaced.
+    #[verifier::external_body]
+    pub fn fetch_max(&self, val: u64, o: Ordering) -> (r: u64)
+        ensures r < u64::MAX, val > r ==> written_by_cas(val)   // when val <= r nothing is stored
+    { unimplemented!() }
+    #[verifier::external_body]
+    pub fn fetch_add(&self, val: u64, o: Ordering) -> (r: u64)
+        requires val >= 1   // [C33]
+        ensures r < u64::MAX, r + val <= u64::MAX ==> written_by_cas((r + val) as u64)
+    { unimplemented!() }
+    #[verifier::external_body]
+    pub fn compare_exchange(&self, current: u64, new: u64, s: Ordering, f: Ordering) -> (r: Result<u64, u64>)
+        requires new > current   // [C33]
+        ensures r matches Ok(v) ==> v == current && written_by_cas(new),
+                r matches Err(v) ==> v < u64::MAX
+    { unimplemented!() }
+    // blind writes cannot keep the location increasing: using them is a failed obligation
+    #[verifier::external_body]
+    pub fn store(&self, val: u64, o: Ordering)
+        requires false   // [C33]
+    { unimplemented!() }
+    #[verifier::external_body]
+    pub fn swap(&self, val: u64, o: Ordering) -> (r: u64)
+        requires false   // [C33]
     { unimplemented!() }
 }
 //@item iroh-dns/src/pkarr.rs static LAST_TIMESTAMP
@@ -57,7 +85,7 @@ impl Timestamp {
 //@| ensures written_by_cas(r.0),
 //@attr
 //@| #[verifier::exec_allows_no_decreases_clause]
-//@loop 1
+//@loop 1 optional
 //@| invariant last < u64::MAX,
 //@end
 }
